@@ -4,7 +4,7 @@
    payload-level splitting lemmas.  `unpark c = c` ("clean"): the read did not end right after the
    last-chunk line nor right after an optional CR that follows chunk data. *)
 From Coq Require Import ZifyBool ZifyN.
-From AV Require Import Lib.Base Lib.BytesX Generated.HttpGen Generated.HttpRespGen Model.Http Model.HttpResp
+From AV Require Import Lib.Base Lib.BytesX Lib.Utf8Decode Generated.HttpGen Generated.HttpRespGen Model.Http Model.HttpResp
   Proofs.HttpSegBase Proofs.HttpRespBase.
 Ltac Zify.zify_post_hook ::= Z.to_euclidean_division_equations.
 Open Scope N_scope.
@@ -171,33 +171,118 @@ Lemma rstep_c_data lim mt rem tl evs a r d rest : takeN rem (a :: r) = (d, rest)
   else inr (QNeed (mkRP (RChunked (RData (rem - lenN d))) [] tl mt) (rev_data d evs)).
 Proof. intros E. cbn [rstep_c]. rewrite E. reflexivity. Qed.
 
-(* a stop asking for more input: the state left behind, and - when it is clean - how the run resumes *)
+(* ------------------------------------------------------------------ resuming after a read boundary *)
+(* a line made of CRs only, terminated by LF *)
+Definition all_cr_line (y : bytes) : bool :=
+  match find_lf y with
+  | Some (raw, _) => match rstrip_cr raw with [] => true | _ => false end
+  | None => false
+  end.
+
+(* the bytes y that follow a read boundary are read the same way as if there had been no boundary.
+   Only two parked states care: after an optional CR that followed chunk data (the next read would
+   skip one more CR): y must not start with CR; after the last-chunk line (its optional CR is only
+   skipped within the same read): y must not start with CR, unless that CR belongs to a line of CRs
+   only (an empty line either way) *)
+Definition resume_c (c : rcstate) (y : bytes) : bool :=
+  match c with
+  | RDataEnd true => match y with b :: _ => negb (b =? 13) | [] => false end
+  | RTrail0 => match y with b :: y' => negb (b =? 13) || all_cr_line y' | [] => false end
+  | _ => true
+  end.
+
+Lemma rcloop_step_eq2 lim mt f f' s1 s2 z1 z2 : rcwf s1 -> rcwf s2 ->
+  rstep_c lim mt s1 z1 = rstep_c lim mt s2 z2 ->
+  (meas rmu_c s1 z1 < f)%nat -> (meas rmu_c s2 z2 < f')%nat ->
+  rcloop lim mt f s1 z1 = rcloop lim mt f' s2 z2.
+Proof.
+  intros W1 W2 E H1 H2. destruct f as [|f]; [lia|]. destruct f' as [|f']; [lia|].
+  unfold rcloop. cbn [loop]. rewrite E.
+  destruct (rstep_c lim mt s2 z2) as [[s' z']|r] eqn:Es; [|reflexivity].
+  destruct (rstep_c_dec _ _ _ _ _ _ W2 Es) as [W' M2].
+  destruct (rstep_c_dec _ _ _ _ _ _ W1 E) as [_ M1].
+  apply (loop_fuel _ _ _ _ rmu_c rcwf (rstep_c_dec lim mt)); [exact W'|lia|lia].
+Qed.
+
+Lemma rcloop_step_eq lim mt f f' s1 s2 z : rcwf s1 -> rcwf s2 ->
+  rstep_c lim mt s1 z = rstep_c lim mt s2 z ->
+  (meas rmu_c s1 z < f)%nat -> (meas rmu_c s2 z < f')%nat ->
+  rcloop lim mt f s1 z = rcloop lim mt f' s2 z.
+Proof. apply rcloop_step_eq2. Qed.
+
+(* one more step on the left *)
+Lemma rcloop_step_left lim mt f f' s1 s2 z z' : rcwf s1 ->
+  rstep_c lim mt s1 z = inl (s2, z') ->
+  (meas rmu_c s1 z < f)%nat -> (meas rmu_c s2 z' < f')%nat ->
+  rcloop lim mt f s1 z = rcloop lim mt f' s2 z'.
+Proof.
+  intros W1 E H1 H2. destruct f as [|f]; [lia|]. unfold rcloop. cbn [loop]. rewrite E.
+  destruct (rstep_c_dec _ _ _ _ _ _ W1 E) as [W' M].
+  apply (loop_fuel _ _ _ _ rmu_c rcwf (rstep_c_dec lim mt)); [exact W'|lia|lia].
+Qed.
+
+Lemma rstrip_cr_cons_cr raw : rstrip_cr raw = [] -> rstrip_cr (13 :: raw) = [].
+Proof. unfold rstrip_cr. cbn [rstrip_by]. intros ->. reflexivity. Qed.
+
+(* a line of CRs only is the empty line, with or without one more CR in front *)
+Lemma rstep_c_trailers_crline lim mt tl evs y raw rest :
+  find_lf y = Some (raw, rest) -> rstrip_cr raw = [] ->
+  rstep_c lim mt (RTrailers, tl, evs) (13 :: y) = rstep_c lim mt (RTrailers, tl, evs) y /\
+  exists r, rstep_c lim mt (RTrailers, tl, evs) y = inr r.
+Proof.
+  intros Hf Hr. destruct y as [|a r]; [discriminate|].
+  assert (Hf2 : find_lf (13 :: a :: r) = Some (13 :: raw, rest)).
+  { unfold find_lf in *. cbn [split_byte]. change (13 =? 10) with false. cbv iota.
+    cbn [split_byte] in Hf. rewrite Hf. reflexivity. }
+  cbn [rstep_c]. rewrite Hf2, Hf. rewrite (rstrip_cr_cons_cr _ Hr), Hr. split; [reflexivity|].
+  repeat dm_goal; eexists; reflexivity.
+Qed.
+
+(* a stop asking for more input: the state left behind, and how the run resumes on bytes y that are
+   safe for that state *)
 Lemma rcstop_need lim mt c tl evs x p' e1 :
   rcwf (c, tl, evs) ->
   rstep_c lim mt (c, tl, evs) x = inr (QNeed p' e1) ->
   exists c' ct' tl', p' = mkRP (RChunked c') ct' tl' mt /\ rwfc c' ct' /\
-    (unpark c' = c' ->
-     forall y f f', (meas rmu_c (c, tl, evs) (x ++ y) < f)%nat ->
-                    (meas rmu_c (c', tl', e1) (ct' ++ y) < f')%nat ->
-      rcloop lim mt f (c, tl, evs) (x ++ y) = rcloop lim mt f' (c', tl', e1) (ct' ++ y)).
+    forall y, resume_c c' y = true ->
+     forall f f', (meas rmu_c (c, tl, evs) (x ++ y) < f)%nat ->
+                  (meas rmu_c (unpark c', tl', e1) (ct' ++ y) < f')%nat ->
+      rcloop lim mt f (c, tl, evs) (x ++ y) = rcloop lim mt f' (unpark c', tl', e1) (ct' ++ y).
 Proof.
   intros Hw H. destruct x as [|a r].
   { cbn [rstep_c] in H. inversion H; subst. exists c, [], tl. split; [reflexivity|]. split.
     - unfold rcwf in Hw. cbn [fst] in Hw. unfold rwfc. destruct c; auto.
-    - intros _ y f f' H1 H2. apply rcloop_fuel; assumption. }
+    - intros y Hy f f' H1 H2. cbn [app] in *.
+      destruct c as [| rem | [|] | |]; cbn [unpark] in *; try (apply rcloop_fuel; assumption).
+      + (* RDataEnd true: the step function does not look at the mark *)
+        destruct y as [|b y']; [discriminate|].
+        apply rcloop_step_eq; try exact I; try assumption. reflexivity.
+      + (* RTrail0 *)
+        destruct y as [|b y']; [discriminate|]. cbn [resume_c] in Hy.
+        destruct (b =? 13) eqn:Eb.
+        * cbn [negb orb] in Hy. apply N.eqb_eq in Eb. subst b.
+          unfold all_cr_line in Hy. destruct (find_lf y') as [[raw rest]|] eqn:Ef; [|discriminate].
+          destruct (rstrip_cr raw) eqn:Er; [|discriminate].
+          destruct (rstep_c_trailers_crline lim mt tl e1 y' raw rest Ef Er) as [E1 [r0 E2]].
+          (* left: skip the CR, then the empty line; right: the CR-only line is the empty line *)
+          destruct f as [|f]; [lia|]. unfold rcloop. cbn [loop]. cbn [rstep_c]. change (13 =? 13) with true. cbv iota.
+          destruct f as [|f]; [unfold meas, rmu_c in H1; cbn [fst length] in H1; destruct y'; [discriminate|cbn [length] in H1; lia]|].
+          destruct f' as [|f']; [lia|]. cbn [loop]. rewrite E1, E2. reflexivity.
+        * eapply rcloop_step_left; [exact I| |exact H1|exact H2].
+          cbn [rstep_c]. rewrite Eb. reflexivity. }
   destruct c.
   - (* RSize *) cbn [rstep_c] in H.
     destruct (find_lf (a :: r)) as [[raw rest]|] eqn:E.
     { repeat (dmH H; try discriminate). }
     inversion H; subst.
     exists RSize, (a :: r), tl. repeat split; try assumption.
-    intros _ y f f' H1 H2. apply rcloop_fuel; assumption.
+    intros y _ f f' H1 H2. apply rcloop_fuel; assumption.
   - (* RData *)
     destruct (takeN rem (a :: r)) as [d rest] eqn:E.
     rewrite (rstep_c_data _ _ _ _ _ _ _ _ _ E) in H.
     destruct (rem - lenN d =? 0) eqn:E0; [discriminate|]. inversion H; subst. clear H.
     exists (RData (rem - lenN d)), [], tl. split; [reflexivity|]. split; [split; [lia|reflexivity]|].
-    intros _ y f f' H1 H2. cbn [app] in H2 |- *.
+    intros y _ f f' H1 H2. cbn [app unpark] in H2 |- *.
     destruct y as [|b y].
     + rewrite app_nil_r in *. destruct f as [|f]; [lia|]. destruct f' as [|f']; [lia|].
       unfold rcloop. cbn [loop].
@@ -216,13 +301,16 @@ Proof.
       * exact I.
       * unfold meas, rmu_c in *. cbn [fst length] in *. rewrite app_length in H1. cbn [length] in *. lia.
       * unfold meas, rmu_c in *. cbn [fst length] in *. lia.
-  - (* RDataEnd: the only stop for more input leaves the unclean mark *)
+  - (* RDataEnd: the only stop for more input is after the optional CR *)
     cbn [rstep_c] in H.
     destruct (a =? 13) eqn:Ea.
     + destruct r as [|b rest]; [|dmH H; discriminate].
-      inversion H; subst.
+      inversion H; subst. apply N.eqb_eq in Ea. subst a.
       exists (RDataEnd true), [], tl. split; [reflexivity|]. split; [reflexivity|].
-      cbn [unpark]. intro Hc. discriminate.
+      intros y Hy f f' H1 H2. cbn [app unpark] in *.
+      destruct y as [|b y']; [discriminate|]. cbn [resume_c] in Hy. apply negb_true_iff in Hy.
+      apply rcloop_step_eq2; try exact I; try assumption.
+      cbn [rstep_c]. change (13 =? 13) with true. cbv iota. rewrite Hy. reflexivity.
     + dmH H; discriminate.
   - (* RTrail0: always steps *) cbn [rstep_c] in H. dmH H; discriminate.
   - (* RTrailers *) cbn [rstep_c] in H.
@@ -230,7 +318,7 @@ Proof.
     { repeat (dmH H; try discriminate). }
     inversion H; subst.
     exists RTrailers, (a :: r), tl. repeat split; try assumption.
-    intros _ y f f' H1 H2. apply rcloop_fuel; assumption.
+    intros y _ f f' H1 H2. apply rcloop_fuel; assumption.
 Qed.
 
 Lemma rcstop_done lim mt s x rest e y :
@@ -279,21 +367,21 @@ Qed.
 Lemma rcloop_need_app lim mt f s x p' e1 : rcwf s -> (meas rmu_c s x < f)%nat ->
   rcloop lim mt f s x = QNeed p' e1 ->
   exists c' ct' tl', p' = mkRP (RChunked c') ct' tl' mt /\ rwfc c' ct' /\
-    (unpark c' = c' ->
-     forall y f' f'', (meas rmu_c s (x ++ y) < f')%nat ->
-                      (meas rmu_c (c', tl', e1) (ct' ++ y) < f'')%nat ->
-      rcloop lim mt f' s (x ++ y) = rcloop lim mt f'' (c', tl', e1) (ct' ++ y)).
+    forall y, resume_c c' y = true ->
+     forall f' f'', (meas rmu_c s (x ++ y) < f')%nat ->
+                    (meas rmu_c (unpark c', tl', e1) (ct' ++ y) < f'')%nat ->
+      rcloop lim mt f' s (x ++ y) = rcloop lim mt f'' (unpark c', tl', e1) (ct' ++ y).
 Proof.
   intros Hw Hf H.
   destruct (rcloop_stop lim mt f s x Hw Hf) as (sk & xk & E & Hwk & Hm & Hs). rewrite H in Hs.
   destruct sk as [[ck tlk] evk].
   destruct (rcstop_need _ _ _ _ _ _ _ _ Hwk Hs) as (c' & ct' & tl' & -> & Hwf & Hres).
   exists c', ct', tl'. split; [reflexivity|]. split; [assumption|].
-  intros Hcl y f' f'' H1 H2.
+  intros y Hy f' f'' H1 H2.
   unfold rcloop.
   rewrite (loop_app _ _ (rstep_c lim mt) rcdflt rmu_c rcwf (rstep_c_dec lim mt) (rstep_c_stable lim mt)
              f s x y f' (S (meas rmu_c (ck, tlk, evk) (xk ++ y))) Hw Hf H1 _ xk E ltac:(lia)).
-  apply (Hres Hcl y (S (meas rmu_c (ck, tlk, evk) (xk ++ y))) f''); [lia|assumption].
+  apply (Hres y Hy (S (meas rmu_c (ck, tlk, evk) (xk ++ y))) f''); [lia|assumption].
 Qed.
 
 Ltac dm_in :=
@@ -378,20 +466,24 @@ Definition rclean (p : rpstate) : bool :=
   | _ => true
   end.
 
-Lemma rclean_unpark p c : rpk p = RChunked c -> rclean p = true -> unpark c = c.
-Proof. unfold rclean. intros ->. destruct c as [| | [|] | |]; try discriminate; reflexivity. Qed.
+(* ... or it does, and the bytes that follow are read the same way *)
+Definition rresume_ok (p : rpstate) (y : bytes) : bool :=
+  match rpk p with RChunked c => resume_c c y | _ => true end.
+
+Lemma rclean_resume p y : rclean p = true -> rresume_ok p y = true.
+Proof. unfold rclean, rresume_ok. destruct (rpk p) as [|c|]; try reflexivity. destruct c as [| | [|] | |]; try discriminate; reflexivity. Qed.
 
 Lemma rfeed_payload_need lim p x evs p' e1 : rwfp p ->
   rfeed_payload lim p x evs = QNeed p' e1 ->
   rwfp p' /\ rmax_trailers p' = rmax_trailers p /\
-  (rtoo_long lim p' = false -> rclean p' = true ->
-   forall y, rfeed_payload lim p (x ++ y) evs = rfeed_payload lim p' y e1).
+  (rtoo_long lim p' = false ->
+   forall y, rresume_ok p' y = true -> rfeed_payload lim p (x ++ y) evs = rfeed_payload lim p' y e1).
 Proof.
   intros Hw H. unfold rwfp in Hw. destruct (rpk p) as [rem|c|] eqn:Ek.
   - unfold rfeed_payload in H. rewrite Ek in H.
     destruct (takeN rem x) as [d r] eqn:E. destruct (rem - lenN d =? 0) eqn:E0; [discriminate|].
     inversion H; subst. clear H. split; [unfold rwfp; cbn; repeat split; lia|]. split; [reflexivity|].
-    intros _ _ y. unfold rfeed_payload. rewrite Ek. cbn [rpk rmax_trailers].
+    intros _ y _. unfold rfeed_payload. rewrite Ek. cbn [rpk rmax_trailers].
     destruct (takeN (rem - lenN x) y) as [d2 r2] eqn:E2.
     destruct (takeN_app_short _ _ _ _ _ _ _ E ltac:(lia) E2) as (-> & -> & ->). rewrite E2.
     rewrite rev_data_app.
@@ -404,14 +496,12 @@ Proof.
     pose proof (rmeas_c_fuel (unpark c) (rtlines p) evs (rctail p ++ x)) as Hf.
     destruct (rcloop_need_app _ _ _ _ _ _ _ Hc Hf H) as (c' & ct' & tl' & -> & Hwf & Hres).
     split; [exact Hwf|]. split; [reflexivity|].
-    intros Ht Hcl y. rewrite (rfeed_payload_chunked _ _ _ _ _ Ek), Et.
+    intros Ht y Hy. rewrite (rfeed_payload_chunked _ _ _ _ _ Ek), Et.
     rewrite (rfeed_payload_chunked lim (mkRP (RChunked c') ct' tl' (rmax_trailers p)) c' y e1 eq_refl), Ht. cbn [rctail rtlines rmax_trailers].
-    pose proof (rclean_unpark (mkRP (RChunked c') ct' tl' (rmax_trailers p)) c' eq_refl Hcl) as Hu.
-    rewrite Hu.
-    rewrite app_assoc. apply (Hres Hu); apply rmeas_c_fuel.
+    rewrite app_assoc. apply (Hres y Hy); apply rmeas_c_fuel.
   - unfold rfeed_payload in H. rewrite Ek in H. inversion H; subst. clear H.
     split; [unfold rwfp; rewrite Ek; assumption|]. split; [reflexivity|].
-    intros _ _ y. unfold rfeed_payload. rewrite Ek. rewrite rev_data_app. reflexivity.
+    intros _ y _. unfold rfeed_payload. rewrite Ek. rewrite rev_data_app. reflexivity.
 Qed.
 
 Lemma rfeed_payload_too_long lim p d evs : rtoo_long lim p = true ->
